@@ -542,7 +542,7 @@ FIRST_INPUT = {'inv': 'regular', 'det': 'regular', 'logdet': 'posdet', 'solve': 
                'chol': 'square', 'eigh': 'gapsym', 'svd': 'svd', 'trace': 'matrix', 'T': 'matrix', 'diag': 'vecorsquare',
                'symvec': 'square', 'outer': 'vector', 'dot': 'vecormat', 'dotc': 'vecormat', 'prod': 'vector', 'tile': 'vecormat',
                'sum': 'vecormat', 'reshape': 'vecormat', 'get': 'vecormat', 'fft': 'vecormat', 'tri': 'matrix',
-               'expm': 'square', 'svdfull': 'svd', 'minmax': 'vecormat', 'umax': 'vector', 'kink': 'awayzero', 'abs': 'awayzero', 'pow': 'withzeros', 'special': 'unitinterval', 'unp': 'unitinterval', 'unfwd': 'unitinterval'}
+               'expm': 'square', 'svdfull': 'svd', 'minmax': 'vecormat', 'umax': 'vector', 'kink': 'awayzero', 'abs': 'awayzero', 'pow': 'withzeros', 'special': 'unitinterval', 'unp': 'unitinterval', 'unfwd': 'unitinterval', 'dotnd': 'cube'}
 
 
 @st.composite
@@ -574,6 +574,9 @@ def _special_input(draw, first, K, max_side):
             a = draw(gen.float_array((n, n), elems, sparse=False))
             mats.append(0.5 * sym + 0.5 * (a - a.T))      # m + m^T == sym
         return np.array(mats)
+    if kind == 'cube':
+        shape = draw(st.sampled_from([(2, 2, 3), (2, 3, 2), (3, 2, 2), (2, 2, 2), (1, 2, 3)]))
+        return draw(gen.float_array((K,) + shape, elems, sparse=False))
     if kind == 'unitinterval':
         # inside the domain of every special function of the registry (logit, gammaln, psi, polygamma, hyperu, arcsin, ...)
         shape = draw(st.sampled_from([(), (n,), (2, n)]))
@@ -857,6 +860,28 @@ def _emit_family_impl(draw, S, fam, allow_set_broadcast=True, allow_ndim_dot=Fal
         if b is None:
             return False
         return S.try_emit(['dot', a, b])
+    if fam == 'dotnd':
+        # dot with an operand of rank 3 (NumPy: sum over the last axis of a and the second-to-last of b)
+        a = _pick(draw, S, lambda r: S.ndim(r) == 3 and not S.cplx(r))
+        if a is None:
+            return False
+        sa = S.shape(a)
+        side = draw(st.sampled_from(['l', 'r']))
+
+        def compat(r):
+            if S.cplx(r) or S.ndim(r) not in (1, 2, 3):
+                return False
+            sb = S.shape(r)
+            if side == 'r':     # dot(a, r)
+                return sa[-1] == (sb[0] if len(sb) == 1 else sb[-2])
+            return sb[-1] == sa[-2]   # dot(r, a)
+        b = _pick(draw, S, compat)
+        if b is None:
+            k = sa[-1] if side == 'r' else sa[-2]
+            c = np.asarray(draw(gen.float_array((k,) if draw(st.booleans()) else ((k, 2) if side == 'r' else (2, k)),
+                                                st.sampled_from([0.5, 1.0, 2.0, -1.0, 1.5]), sparse=False)))
+            return S.try_emit(['dotc', a, c, side])
+        return S.try_emit(['dot', a, b] if side == 'r' else ['dot', b, a])
     if fam == 'dotc':
         a = _pick(draw, S, lambda r: S.ndim(r) in (1, 2) and not S.cplx(r))
         if a is None:
